@@ -151,6 +151,11 @@ def wf_graph(g, model, connected=True):
     vs = g.variables()
     if not g.triples or g.top is None:
         return False
+    for es in g.epidata.values():
+        # at most one role alignment and one alignment per triple (C03's AlignOK: several are
+        # written back to back, `:ARG0~e.1~e.2`, and do not re-read; boundary O22)
+        if sum(1 for e in es if type(e) is surface.RoleAlignment) > 1 or sum(1 for e in es if type(e) is surface.Alignment) > 1:
+            return False
     inst = [t for t in g.triples if t[1] == ':instance']
     if sorted(t[0] for t in inst) != sorted(vs):
         return False
